@@ -89,22 +89,24 @@ def comparisons(rng, tools, laue):
     return out, dict(cell=c, hkl=h, U=U.tolist(), eps=e, tth=tth, g=gdir.tolist(), chi=chi, wedge=wedge)
 
 
-def hkl_comparisons(rng, tools, laue, sgs):
+def hkl_comparisons(rng, tools, laue, sgs, forced=None):
     from xfab import sg
     from .. import hklcorr as HC
     no = rng.choice(sgs)
     choice = 'standard'
-    if rng.random() < 0.2:
+    if forced is None and rng.random() < 0.2:
         no, choice = rng.choice([146, 148, 155, 160, 161, 166, 167]), 'rhombohedral'
     s = sg.sg(sgno=no, cell_choice=choice)
     form, kw = rng.choice(HC.call_forms(s, no, choice))       # by number and setting / by the table's own name / by plain name and setting
     cell = conforming_cell(rng, s.crystal_system, s.cell_choice)
     lo, hi = 0.0, rng.uniform(0.15, 0.35) * 5.0 / cell[0] if cell[0] > 5 else rng.uniform(0.15, 0.3)
-    if rng.random() < 0.15 and s.cell_choice != 'rhombohedral':
+    if rng.random() < 0.3 and s.cell_choice != 'rhombohedral':
         # directed: one short reciprocal axis, indices beyond 10 along it
-        dc = HC.make_directed_case(rng, s, rng.choice(['high', 'veryhigh']))
+        dc = HC.make_directed_case(rng, s, rng.choice(['high', 'veryhigh', 'index256', 'index256']))
         if dc is not None:
             cell, lo, hi = dc['cell'], dc['lo'], dc['hi']
+    if forced is not None:
+        cell, lo, hi = forced
     out = []
     out.append(('genhkl_all', sorted_rows(tools.genhkl_all(cell, lo, hi, **kw)), sorted_rows(laue.genhkl_all(cell, lo, hi, **kw)), {}))
     out.append(('genhkl_unique', sorted_rows(tools.genhkl_unique(cell, lo, hi, output_stl=True, **kw)),
@@ -167,9 +169,18 @@ def search(ctx):
                     fails.append({'function': nm, 'input': inp, 'tag': tag, 'what': exc or 'tools.%s and laue.%s disagree (beyond the 2 pi convention)' % (nm, nm),
                                   'replay': 'tools.%s vs laue.%s' % (nm, nm)})
         sgs = list(range(1, 231))
+        # two fixed-shape cases first: indices beyond 256 along a and along b (orthorhombic, thin shell), then the random ones
+        from .. import hklcorr as HC
+        forced = []
+        for axis in (0, 1):
+            big = ctx.rng.randint(9000, 14000)
+            d = [big, big + ctx.rng.randint(50, 900), big + ctx.rng.randint(50, 900)]
+            d[axis] = 1
+            K, S, M = [[d[0], 0, 0], [0, d[1], 0], [0, 0, d[2]]], 400000.0, min(x for x in d if x > 1) + 70000
+            forced.append((ctx.rng.choice([16, 17, 18, 19, 25, 47]), (HC.cell_of(K, S), 0.5 * math.sqrt((M - 9000 + 0.5) / S), 0.5 * math.sqrt((M + 0.5) / S))))
         for i in range(ctx.n(40, 460)):
             try:
-                comps, inp = hkl_comparisons(ctx.rng, tools, laue, sgs)
+                comps, inp = hkl_comparisons(ctx.rng, tools, laue, sgs) if i >= len(forced) else hkl_comparisons(ctx.rng, tools, laue, [forced[i][0]], forced=forced[i][1])
             except Exception as ex:
                 comps, inp = [('genhkl', 0, 1, {'exc': '%s: %s' % (type(ex).__name__, ex)})], {}
             for nm, t, l, kw in comps:
